@@ -130,7 +130,24 @@ def run_case(ctx, kind, rng, idx):
         try:
             core.committors(buf, src_arg, snk_arg)
             core.mfpts(buf, sinks=snk_arg)
+            if n <= 12:
+                core.mfpts(buf)          # all-pairs form, computed populations
             buf[...] = T2
+            if n <= 12:
+                Ab = np.asarray(core.mfpts(buf), dtype=float)
+                cA = max(cond_of(T2, [j]) for j in range(n))
+                tA = min(1e-3, 1e-8 * max(cA, 1.0))
+                for j in range(n):
+                    nj = [i for i in range(n) if i != j]
+                    r = Ab[nj, j] - (1 + T2[nj] @ Ab[:, j])
+                    if np.abs(r).max() > tA * max(1.0, np.abs(Ab[:, j]).max()):
+                        ctx.violation(
+                            'tpt.stale-after-refill',
+                            'the same matrix object refilled with another '
+                            'chain: column %d of the all-pairs MFPT table '
+                            'misses its first-step equation by %.3g' % (
+                                j, np.abs(r).max()))
+                        break
             qb = np.asarray(core.committors(buf, src_arg, snk_arg),
                             dtype=float).reshape(-1)
             mb = np.asarray(core.mfpts(buf, sinks=snk_arg), dtype=float
